@@ -96,6 +96,7 @@ class QGen:
         self.safe = 0  # >0: no partial operations (First / index) are generated
         self._in_arg = False
         self.noflat = 0  # >0: no inner SelectMany (aggregate / First over a flattened sequence is a recorded finding)
+        self.nowhere: Set[str] = set()  # sequence variables that must not be filtered again (recorded finding handed-on-filtered-sequence)
 
     # ------------------------------------------------------------- helpers
     def pick(self, seq):
@@ -219,7 +220,9 @@ class QGen:
             self.labels.add("objvec-method")
             base = (f"{txt}.{m.name}()", m.cls)
         # optional Where
-        if fuel > 0 and self.chance(1, 3):
+        if base[0] in self.nowhere:
+            self.excluded["handed-on-filtered-sequence"] = self.excluded.get("handed-on-filtered-sequence", 0) + 1
+        elif fuel > 0 and self.chance(1, 3):
             v = self.newvar(scope, "o")
             b = self.boolean(self.bind(scope, v, TObj(base[1])), fuel - 1)
             self.labels.add("Where-inner")
@@ -350,7 +353,10 @@ class QGen:
                 t, kind = self.num(self.bind(scope, v, TObj(os_[1])), 0)
                 base = (f"{os_[0]}.Select(lambda {v}: {t})", kind)
         # optional Where / Select on numbers
-        if fuel > 0 and self.chance(1, 4):
+        if base[0] in self.nowhere or any(base[0].startswith(v + ".") for v in self.nowhere):
+            # (a Where behind a Select of the sequence is moved in front of the Select by func_adl: it filters the sequence itself)
+            self.excluded["handed-on-filtered-sequence"] = self.excluded.get("handed-on-filtered-sequence", 0) + 1
+        elif fuel > 0 and self.chance(1, 4):
             v = self.newvar(scope, "v")
             b = self.boolean(self.bind(scope, v, TNum(base[1])), fuel - 1)
             self.labels.add("Where-numbers")
@@ -788,10 +794,44 @@ class QGen:
                 return (t, TNum(kind))
             self.labels.add("column-1D")
             return (r[0], TSeq(TNum(r[1])))
+        if self.f.range_ and self.chance(1, 5):
+            # the outer level is a range of numbers (possibly as long as a collection), the inner one a range or a collection
+            x = self.newvar(scope, "x")
+            sc2 = self.bind(scope, x, TNum("int"))
+            hi = self.pick(["2", "3", "1"])
+            os0 = self.objseq(scope, 0)
+            if os0 is not None and self.chance(1, 2):
+                hi = f"{os0[0]}.Count()"
+                self.labels.add("Range-computed-bound")
+            y = self.newvar(sc2, "y")
+            while y == x:
+                y += "y"
+            inner_txt, inner_kind = f"Range(0, {self.pick(['2', '3'])}).Select(lambda {y}: {x} + {y})", "int"
+            os1 = self.objseq(scope, 0)
+            if os1 is not None and self.chance(1, 2):
+                nm1 = [m for m in self.s.classes[os1[1]].methods if m.kind == "num" and not m.enum and not m.tree_type and not m.member and m.ctype != "bool" and not m.typed]
+                if nm1:
+                    inner_txt, inner_kind = f"{os1[0]}.Select(lambda {y}: {y}.{self.pick(nm1).name}() + {x})", "double"
+            self.labels.update({"Range", "column-2D", "column-2D-outer-Range"})
+            self.nops += 2
+            return (f"Range(0, {hi}).Select(lambda {x}: {inner_txt})", TSeq(TSeq(TNum(inner_kind))))
         os_ = self.objseq(scope, fuel - 1)
         if os_ is None:
             t, kind = self.num(scope, fuel)
             return (t, TNum(kind))
+        ovm = [m for m in self.s.classes[os_[1]].methods if m.kind == "objvec"]
+        if ovm and self.f.first and not self.safe and not self.noflat and self.chance(1, 5):
+            # the outer level is the object vector of the FIRST object of a sequence
+            m0 = self.pick(ovm)
+            nm0 = [m for m in self.s.classes[m0.cls].methods if m.kind == "num" and not m.enum and not m.tree_type and not m.member and m.ctype != "bool" and not m.typed]
+            if nm0:
+                t_ = self.newvar(scope, "t")
+                y = self.newvar(self.bind(scope, t_, TObj(m0.cls)), "y")
+                while y == t_:
+                    y += "y"
+                self.labels.update({"First", "First-object", "Range", "column-2D", "column-2D-outer-First-object-vector"})
+                self.nops += 3
+                return (f"{os_[0]}.First().{m0.name}().Select(lambda {t_}: Range(0, 2).Select(lambda {y}: {t_}.{self.pick(nm0).name}() + {y}))", TSeq(TSeq(TNum("double"))))
         v = self.newvar(scope, "j")
         vm2 = [m for m in self.s.classes[os_[1]].methods if m.kind == "vec"]
         if vm2 and self.chance(1, 3):
@@ -875,7 +915,7 @@ def queries(draw, schema: Schema, feat: Features = None, fuel_range=(1, 3), extr
         shape_opts.append((3, "object"))
     if feat.plumbing:
         shape_opts.append((3, "plumb"))
-        shape_opts.append((1, "handon"))
+        shape_opts.append((2, "handon"))
     if feat.first and feat.plumbing:
         shape_opts.append((1, "firstrow"))
     shape = g.weighted(shape_opts)
@@ -926,13 +966,9 @@ def queries(draw, schema: Schema, feat: Features = None, fuel_range=(1, 3), extr
         e = g.newvar([], "e")
         os_ = g.objseq([(e, TEvt())], fuel - 1)
         j = g.newvar([], "j")
-        # recorded finding: a 2-D column in a per-object row is rejected ("Could not find fill node") or misplaced
-        saved2d = feat.seq2d
-        if saved2d:
-            g.excluded["2D-column-in-per-object-row"] = g.excluded.get("2D-column-in-per-object-row", 0) + 1
-        g.f.seq2d = False
         body, cols = g.row([(j, TObj(os_[1]))], fuel, ncols, form)
-        g.f.seq2d = saved2d
+        if any(isinstance(c[1], TSeq) and isinstance(c[1].elem, TSeq) for c in cols):
+            g.labels.add("column-2D-in-per-object-row")
         if form == "bare" and isinstance(cols[0][1], TSeq):
             # recorded finding: a bare sequence-valued row per object is filled per inner element
             g.excluded["per-object-bare-sequence-row"] = g.excluded.get("per-object-bare-sequence-row", 0) + 1
@@ -951,7 +987,7 @@ def queries(draw, schema: Schema, feat: Features = None, fuel_range=(1, 3), extr
         for i in range(n_items):
             kind = g.weighted([(4, "objseq"), (2, "num"), (1, "numseq")]) if not force_handon else g.weighted([(3, "objseq"), (1, "numseq")])
             if kind == "objseq":
-                r = g.objseq(sc, 0)
+                r = g.objseq(sc, 1 if (force_handon and g.chance(2, 3)) else 0)  # (a handed-on sequence is often a filtered one)
                 items.append((r[0], TSeq(TObj(r[1]))))
             elif kind == "num":
                 t, k = g.num(sc, 1)
@@ -965,13 +1001,10 @@ def queries(draw, schema: Schema, feat: Features = None, fuel_range=(1, 3), extr
         want_bare = n_items == 1 and (force_handon or g.chance(1, 2))
         if want_bare and ".Where(" in items[0][0] and isinstance(items[0][1], TSeq):
             # recorded finding handed-on-filtered-sequence: a FILTERED sequence handed on bare and filtered again in two places of the second
-            # lambda is fused by func_adl on shared nodes (the package does not compile): hand it on inside a tuple instead (counted)
-            g.excluded["handed-on-filtered-sequence"] = g.excluded.get("handed-on-filtered-sequence", 0) + 1
-            force_handon = False
-            first = "(" + items[0][0] + ",)"
-            acc = [f"{t}[0]"]
-            g.labels.add("plumbing-tuple")
-        elif want_bare:
+            # lambda is fused by func_adl on shared nodes (the package does not compile): the second lambda does not filter it again
+            # (counted where a filter is left out); everything else - iterating it again inside its own loop, aggregates - is generated
+            g.nowhere.add("__p0__")
+        if want_bare:
             # the value itself is handed on (no tuple around it): the second lambda then works on ONE node, however often it mentions it
             first = items[0][0]
             acc = [t]
@@ -993,9 +1026,6 @@ def queries(draw, schema: Schema, feat: Features = None, fuel_range=(1, 3), extr
             scope2.append((f"__p{i}__", it[1]))
         bare = "plumbing-bare" in g.labels
         saved2d = g.f.seq2d
-        if bare:
-            # (a 2-D column whose inner loop re-iterates the handed-on collection is the recorded fill-scope finding again)
-            g.f.seq2d = False
         extra = None
         if force_handon and form == "bare":
             form = "tuple"
@@ -1012,14 +1042,27 @@ def queries(draw, schema: Schema, feat: Features = None, fuel_range=(1, 3), extr
                         (f"{t}.Select(lambda sj: {t}.Count())", TSeq(TNum("int"))),
                         (f"({t}.Count() + {t}.Select(lambda sj: sj.{m1}()).Sum())", TNum("double")),
                         (f"({t}.Select(lambda sj: sj.{m1}()).Sum() > 1 and {t}.Count() > 1)", TNum("bool")),
+                        (f"{t}.Select(lambda sj: {t}.Count() * sj.{m1}())", TSeq(TNum("double"))),
+                        (f"{t}.Select(lambda sj: {t}.Select(lambda sk: sk.{m1}() + sj.{m1}()))", TSeq(TSeq(TNum("double")))),
+                        (f"{t}.Select(lambda sj: sj.{m1}() / ({t}.Select(lambda sk: sk.{m1}() * sk.{m1}()).Sum() + 1))", TSeq(TNum("double"))),
+                        (f"{t}.Select(lambda sj: sj.{m1}()).Aggregate(0.0, lambda sa, sp: sa + sp * {t}.Count())", TNum("double")),
                     ])
             else:
                 extra = g.pick([
                     (f"{t}.Select(lambda sp: {t}.Where(lambda sq: sq > sp).Count())", TSeq(TNum("int"))),
                     (f"({t}.Count() + {t}.Sum())", TNum("double")),
+                    (f"{t}.Aggregate(0.0, lambda sa, sp: sa + sp * {t}.Sum())", TNum("double")),
+                    (f"{t}.Aggregate(0.0, lambda sa, sp: sa + (sp - {t}.Sum() / ({t}.Count() + 1)) ** 2)", TNum("double")),
+                    (f"{t}.Select(lambda sp: sp / ({t}.Sum() * {t}.Sum() + 1))", TSeq(TNum("double"))),
                 ])
+            if extra is not None and "__p0__" in g.nowhere and ".Where(" in extra[0]:
+                # (the recorded finding again: the handed-on sequence is a filtered one and would be filtered once more)
+                g.excluded["handed-on-filtered-sequence"] = g.excluded.get("handed-on-filtered-sequence", 0) + 1
+                extra = (f"{t}.Select(lambda sj: {t}.Count())", TSeq(TNum("int")))
             if extra is not None:
                 g.labels.add("handed-on-sequence-self-join")
+                if "__p0__" in g.nowhere:
+                    g.labels.add("handed-on-filtered-sequence-iterated-again")
         body, cols = g.row(scope2, fuel, ncols, form)
         g.f.seq2d = saved2d
         for k, a in alias.items():
